@@ -39,9 +39,18 @@ HISTORY = {
     "C13-e": "round 5 (blind): caught on the first run (native validation at extreme weight scales).",
     "C15-e": "round 5 (blind): caught on the first run.",
     "C08-e": "round 5 (blind): MISSED (exit 0): no check exercised fewer observations than basis functions outside the thorough tier. Strengthened: C08 now runs the symbolic `core` scenario on degenerate shapes (N < M, N = M, N = 1) and a native grid `shapes` (N = 1..5, P = 0..3, all four flavours, weights, statistics).",
+    "C01-f": "round 6 (blind): caught on the first run (the rank-case premises: sigma = eps belongs to the discarded case).",
+    "C02-f": "round 6 (blind): caught on the first run.", "C03-f": "round 6 (blind): caught on the first run (the solver found inputs on the far side of the recorded numeric guard).",
+    "C06-f": "round 6 (blind): caught on the first run.", "C16-f": "round 6 (blind): caught on the first run.", "C13-f": "round 6 (blind): caught on the first run (native validation at extreme weight scales).",
+    "C11-f": "round 6 (blind): MISSED (exit 0; Engine M listed the difference of the two impls as inconclusive). The defect is schedule dependent: it needs one rayon job to handle several Jacobian columns. Calls injected from outside the pool (as the harness made them) are split further by rayon than calls that start on a worker, so every column ran as its own job. Strengthened: configurations `install=1` drive the parallel flavour from inside a worker of a dedicated pool (1..4 threads, 3..9 columns), for single updates (relpar) and complete fits (relfit).",
+    "C14-f": "round 6 (blind): NO VERDICT (exit 2): Kani satisfied the cover 'returned normally for a probability outside (0,1)' -- a counterexample -- but the runner filed any unexpected cover status under 'vacuity witness not as expected'. Corrected: a satisfied MUST-NOT cover is treated like a failed assertion and replayed natively (scenario `bandpanic`: 0, -0, 1, 1+eps, negatives, NaN, +-inf must panic; values inside must not).",
+    "C09-f": "round 6 (blind): NO VERDICT (exit 2): the Kani harness on the fault logic failed its assertion params() == the parameters just applied, but the native replay scenario (rejected update) does not exercise an evaluation failure. Strengthened: the failing-eval history of the symbolic `core` scenario proves params() == the parameters at the failure, and it is the second native replay of that harness.",
+    "C04-f": "round 6 (blind): NO VERDICT (exit 2): Engine M saw that field `cached` of the returned problem is not the optimizer's final one on the Err path, but the native scenario only looked at the weighted data of an Err result. Strengthened: native `fitmap` and the symbolic `symfit`/`symfit2` require residuals and coefficients on the returned problem whenever the model never failed, Ok or Err.",
     "C04-a": "first evaluation design: Engine M alone reported it but its native replay scenario did not cover LostPatience; the native scenario fitmap now enumerates all 13 termination reasons.",
 }
-AFTER = {"C01-d": "/tmp/seb_C01-d_after.txt", "C15-d": "/tmp/seb_C15-d_after.txt", "C14-d": "/tmp/seb_C14-d_after.txt"}
+AFTER = {"C01-d": "/tmp/seb_C01-d_after.txt", "C15-d": "/tmp/seb_C15-d_after.txt", "C14-d": "/tmp/seb_C14-d_after.txt",
+         "C18-e": "/tmp/seb_C18-e_after.txt", "C10-e": "/tmp/seb_C10-e_after.txt", "C08-e": "/tmp/seb_C08-e_after.txt", "C04-e": "/tmp/seb_C04-e_after.txt", "C09-e": "/tmp/seb_C09-e_after.txt",
+         "C11-f": "/tmp/seb_C11-f_after.txt", "C14-f": "/tmp/seb_C14-f_after.txt", "C09-f": "/tmp/seb_C09-f_after.txt", "C04-f": "/tmp/seb_C04-f_after.txt"}
 SUMMARY = {
     "C07-e": ("shared Jacobian helper with a 'fast path' for S > M whose gemm has alpha and beta swapped", "strictly more right-hand sides than basis functions"),
     "C09-e": ("fit_with_statistics: `let Some(coefficients) = .. else return Err` replaced by `.expect(..)`", "a model failure exactly at the optimizer's final re-application of the accepted parameters"),
@@ -53,6 +62,16 @@ SUMMARY = {
     "C13-e": ("sigma set to 0 when the reduced chi^2 is below machine epsilon", "a good fit of small-scale data (reduced chi^2 <= eps)"),
     "C15-e": ("derivatives wrapped through a new helper that drops the arity check of derivative callables", "a correctly named partial_deriv whose callable has the wrong arity"),
     "C08-e": ("sequential jacobian() uses a scratch buffer sized M x S assuming U has M columns", "fewer observations than basis functions"),
+    "C01-f": ("truncation with sigma < eps (strict) in a new helper: a singular value equal to the threshold is kept", "a singular value exactly equal to the configured threshold"),
+    "C02-f": ("Weights::diagonal() returns Unit when all weights are identical", "uniform weights different from 1"),
+    "C03-f": ("'twice is enough' re-projection flips the sign of a Jacobian column when its out-of-range part is relatively tiny", "out-of-range fraction of (dPhi/dalpha_k) C below sqrt(eps)"),
+    "C06-f": ("explicit weights with all |w_i| = 1 collapse to Unit (camax/camin compare magnitudes)", "weights of magnitude one with at least one -1"),
+    "C11-f": ("parallel jacobian: per-worker scratch via map_init, U^T D_k C accumulated instead of overwritten", "one rayon job handling >= 2 columns (few threads, work started inside the pool)"),
+    "C14-f": ("probability check (0..1).contains(&p): the lower bound is included", "probability exactly 0 (or -0)"),
+    "C16-f": ("function parameter list sorted alphabetically: derivatives receive their arguments in alphabetical order", "a function of >= 2 parameters declared out of alphabetical order"),
+    "C13-f": ("machine-epsilon ridge added to the diagonal of H^T H before inversion", "entries of H^T H tiny in absolute terms"),
+    "C09-f": ("after a failing evaluation the model is rolled back to its previous parameters", "an evaluation failure after the model accepted the parameters; params() inspected"),
+    "C04-f": ("fit() clears the cache of the returned problem when the termination is not successful", "an unsuccessful termination of a model that evaluates fine (LostPatience)"),
     "C15-d": ("initial_parameters() skips its length check when called directly after function()/partial_deriv()", "a wrong-length initial guess supplied right after a function"),
     "C02-d": ("residuals cached as Y_w - U(U^T Y_w) (third independent occurrence of this idea)", "a truncated singular value"),
     "C16-d": ("'skip the temporary Vec' fast path passing params[first..=last] (third independent occurrence)", "arity >= 4, endpoints fixed, middle shuffled"),
